@@ -19,6 +19,8 @@ package stream
 import (
 	"sync/atomic"
 	"time"
+
+	"github.com/rulego/streamsql/utils/verifhook"
 )
 
 // startSinkWorkerPool starts sink worker pool with configurable worker count
@@ -45,6 +47,7 @@ func (s *Stream) startSinkWorkerPool(workerCount int) {
 								s.log.Error("Sink worker %d panic recovered: %v", workerID, r)
 							}
 						}()
+						verifhook.Point("sink.worker_run")
 						task()
 					}()
 				case <-s.done:
@@ -148,6 +151,7 @@ func (s *Stream) callSinksAsync(results []map[string]any) {
 func (s *Stream) submitSinkTask(sink func([]map[string]any), results []map[string]any) {
 	// Capture sink variable to avoid closure issues
 	currentSink := sink
+	verifhook.Point("sink.submit")
 
 	// Submit task to worker pool
 	task := func() {
